@@ -41,13 +41,26 @@ def _install_clock(loop):
     return perf_counter
 
 
+class LogList(list):
+    """log records of a run; remembers the trace position and virtual time of each record"""
+
+    def __init__(self, run):
+        super().__init__()
+        self.run = run
+        self.at = []
+
+    def append(self, item):
+        super().append(item)
+        self.at.append((len(self.run.trace), self.run.loop.time()))
+
+
 class Run:
     def __init__(self, scen, cfg, chooser, early=None):
         self.scen = scen
         self.cfg = dict(DEFAULT_CFG, **cfg)
         self.trace = []
         self.stubs = {}
-        self.logs = []
+        self.logs = LogList(self)
         self.gated = False
         self.gate_kinds = tuple(self.cfg.get("gates") or ())
         self.loop = VLoop(chooser, early,
